@@ -73,7 +73,7 @@ def run_checks(pids):
 
 
 def confirm(d, tests=False, pids=None):
-    d = d.rstrip("/")
+    d = os.path.abspath(d.rstrip("/"))
     meta_p = os.path.join(d, "meta.json")
     meta = json.load(open(meta_p))
     pid = meta["property"]
